@@ -132,7 +132,8 @@ impl<'de> Multipart<'de> {
                         },
                         Some(filename) => Part::File {
                             name,
-                            file: File { filename, mimetype, content }
+                            /* a part without `Content-Type` is text/plain ( RFC 7578 4.4 ) */
+                            file: File { filename, mimetype: if mimetype.is_empty() {"text/plain"} else {mimetype}, content }
                         },
                     })
                 }
